@@ -11,6 +11,7 @@ from implutil import main, q
 
 sys.path.insert(0, os.path.dirname(os.path.abspath(__file__)))
 import exprgen as G  # noqa: E402
+G.CHK_MAG = False
 
 warnings.simplefilter('ignore')
 import openmdao.api as om  # noqa: E402
@@ -37,21 +38,21 @@ CNS = dict(NPNS)
 CNS['abs'] = _cs_abs
 
 
-def detectable_at_first_point(rhs, c, vals1, i, k, l, reduce_sum, n):
-    """CLASSIFIES a jacobian entry that the automatic coloring lost (it never decides pass/fail).
+def detect_matrix(rhs, c, vals1, reduce_sum, n):
+    """CLASSIFIES what the automatic coloring can have seen (it never decides pass/fail).
 
     Emulates, independently of the code under test, what ExecComp's sparsity sampling does at the first
     linearization point: ALL inputs are moved simultaneously to x + off * rand (off = 1e-9 * x, 1e-9 where x is
     exactly 0), the full jacobian is taken by complex step (h = 1e-40) in COMPLEX arithmetic (where e.g.
     log1p(2.5e-19 + 0j) is exactly 0), |J| is accumulated over 3 draws, scaled by its largest entry, and entries
-    <= 1e-25 are dropped.  An entry is called detectable only if it clears 1e-20 (five orders of margin, the
-    random draws differ from ExecComp's) in each of 4 independent emulations.  Lost-but-detectable entries get
-    their own signature (always a violation); the others are the known finding F1 of FINDINGS.md."""
+    <= 1e-25 are dropped.  An entry counts as detectable only if it clears 1e-20 (five orders of margin: the
+    random draws differ from ExecComp's) in each of 4 independent emulations.
+    Returns one boolean array (nout x size) per variable, or None if the emulation itself fails."""
     h = 1e-40
     rs = np.random.RandomState(20260921)
     names = [G.VARS[j] for j in c['vars']]
     expr = ('sum(%s)' % rhs) if reduce_sum else rhs
-    col = [G.VARS[j] for j in c['vars']].index(G.VARS[i])
+    det = None
     try:
         for trial in range(4):
             acc = None
@@ -83,12 +84,12 @@ def detectable_at_first_point(rhs, c, vals1, i, k, l, reduce_sum, n):
                     a_ += np.where(np.isfinite(b_), b_, 0.0)
             big = max(float(np.max(a_)) for a_ in acc)
             if not big > 0:
-                return False
-            if not acc[col][k, l] / big > 1e-20:
-                return False
-        return True
+                return [np.zeros_like(a_, dtype=bool) for a_ in acc]
+            cur = [a_ / big > 1e-20 for a_ in acc]
+            det = cur if det is None else [d_ & c_ for d_, c_ in zip(det, cur)]
+        return det
     except Exception:
-        return False
+        return None
 
 
 def handle(c):
@@ -144,6 +145,8 @@ def handle(c):
     msgs, sig = [], ''
     res_all = []
     colored = False
+    bad_entries = []
+    nonzero_later = []          # entries with a non-zero exact derivative at a later point
     for ip, pt in enumerate(c['points']):
         vals = point_vals(pt)
         for nm, v in vals.items():
@@ -163,8 +166,8 @@ def handle(c):
         if ref.size == 1 and y.size > 1:
             ref = np.full(y.size, ref[0])
         # ExecComp evaluates in complex arithmetic (its complex-step arrays) and returns the real part, so the
-        # last bits can differ from the real NumPy evaluation (complex division / cosh ...): 1e-12 relative
-        if y.shape != ref.shape or not np.all(np.abs(y - ref) <= 1e-12 * np.maximum(1.0, np.abs(ref))):
+        # last bits can differ from the real NumPy evaluation (complex division / cosh ...), amplified by the conditioning of the expression: 1e-10 relative
+        if y.shape != ref.shape or not np.all(np.abs(y - ref) <= 1e-10 * np.maximum(1.0, np.abs(ref))):
             k = int(np.argmax(y != ref)) if y.shape == ref.shape else 0
             msgs.append(tag + 'output %r differs from NumPy evaluation %r (element %d) of %s' % (
                 y.tolist()[:4], ref.tolist()[:4], k, src))
@@ -187,6 +190,8 @@ def handle(c):
                     else:
                         want = G.ev(tree, envs(tree, vals, c, k), i, margin=False).d
                     got = Ji[k, l]
+                    if ip > 0 and want is not None and want != 0.0:
+                        nonzero_later.append((i, k, l))
                     if want is None:
                         if got != 0.0:
                             msgs.append(tag + 'd y[%d] / d %s[%d] = %r, must be exactly 0' % (k, nm, l, got))
@@ -194,15 +199,27 @@ def handle(c):
                     elif not (abs(got - want) <= 1e-9 * max(1.0, abs(want))):
                         msgs.append(tag + 'd y[%d] / d %s[%d] = %r, exact derivative %r (%s, config %s, %s=%r)' % (
                             k, nm, l, got, want, src, cfg, nm, vals[nm].tolist()))
-                        if ip == 0 or not colored or got != 0.0:
-                            sig = sig or 'partial'
-                        elif detectable_at_first_point(rhs, c, point_vals(c['points'][0]), i, k, l, reduce_sum, n):
-                            sig = sig or 'coloring-lost-detectable-entry'
-                        else:
-                            sig = sig or 'coloring-sparsity-zero-at-sampling-point'
-                            msgs[-1] += (' [the automatic coloring computed its sparsity at point 1, where this '
-                                         'derivative vanishes to high order or lies on a locally constant branch]')
+                        bad_entries.append((ip, i, k, l, got, want))
         res_all.append({'y': [q(float(t)) for t in y], 'J': Jq})
+    if bad_entries:
+        if not colored or all(ip == 0 for ip, *_ in bad_entries):
+            sig = sig or 'partial'
+        else:
+            # The automatic coloring fixed its sparsity at point 1.  If some entry that is non-zero at a later
+            # point could not be seen there (FINDINGS.md F1), the stale pattern corrupts that entry AND the
+            # entries sharing its colour: every partial mismatch of this case is attributed to F1.  If every
+            # such entry was detectable at point 1, a lost entry is a different failure.
+            det = detect_matrix(rhs, c, point_vals(c['points'][0]), reduce_sum, n)
+            order = {v_: j_ for j_, v_ in enumerate(c['vars'])}
+            stale = det is None or any(not det[order[i_]][k_, l_] for (i_, k_, l_) in nonzero_later)
+            if stale:
+                sig = sig or 'coloring-sparsity-zero-at-sampling-point'
+                msgs[-1] += (' [the automatic coloring computed its sparsity at point 1, where a derivative that '
+                             'is non-zero later vanishes to high order or lies on a locally constant branch]')
+            elif all(g_ == 0.0 for (_ip, _i, _k, _l, g_, _w) in bad_entries):
+                sig = sig or 'coloring-lost-detectable-entry'
+            else:
+                sig = sig or 'partial'
     return {'res': res_all, 'ok': not msgs, 'msg': '; '.join(msgs[:3]), 'sig': sig,
             'kind': '%s:%s%s%s%s%s:pts%d' % (cfg, 'arr' if n > 1 else 'scalar', ':sum' if reduce_sum else '',
                                           ':colored' if colored else '', ':y()' if yscalar else '',
